@@ -124,6 +124,46 @@ func genPhaseCase(r *gen.Rand, maxSeqs int) phaseCase {
 		f3 := r.Str(r.PickInt([]int{0, 0, 1, 2, 5, 20, 40}), "ACGT")
 		s := f5 + copyS + f3
 		sp := seqSpec{Name: "s" + gen.Itoa(i), Start: len(f5), Ref: refIdx}
+		if pc.Reverse && r.Chance(0.08) {
+			// two copies on opposite strands: a diverged one forward, the reference verbatim on the reverse strand
+			// (the verbatim copy is the one the sequence is trimmed at)
+			div := mutateORF(r, base, r.PickF([]float64{0.15, 0.25}), 0)
+			// ... clearly diverged in nucleotides AND in amino acids under every code (a synonymous copy is as good a
+			// hit as the verbatim one in translate mode: which of the two is reported is then not fixed)
+			clearly := len(div) == len(base)
+			for code := 0; code < 3 && clearly; code++ {
+				pa, _ := ref.Translate(base, 0, code)
+				pb, _ := ref.Translate(div, 0, code)
+				d := 0
+				for k := 0; k < len(pa) && k < len(pb); k++ {
+					if pa[k] != pb[k] {
+						d++
+					}
+				}
+				clearly = len(pa) == len(pb) && d*5 >= len(pa) && d >= 3
+			}
+			dn := 0
+			for k := 0; clearly && k < len(base); k++ {
+				if base[k] != div[k] {
+					dn++
+				}
+			}
+			if !clearly || dn*8 < len(base) {
+				pc.Seqs = append(pc.Seqs, seqSpec{Name: "s" + gen.Itoa(i), Seq: f5 + base + f3, Start: len(f5), Ref: refIdx, Exact: strings.Count(f5+base+f3, base) == 1 && func() bool { x, _ := ref.RevComp(f5 + base + f3); return strings.Count(x, base) == 0 }()})
+				continue
+			}
+			rcBase, _ := ref.RevComp(base)
+			sp5 := r.Str(r.Range(3, 15), "CT")
+			s = f5 + div + sp5 + rcBase + f3
+			// in the reverse complement of s the verbatim copy starts after rc(f3)
+			sp = seqSpec{Name: "s" + gen.Itoa(i), Start: len(f3), Ref: refIdx, RC: true}
+			fw := strings.Count(s, base)
+			rcs, _ := ref.RevComp(s)
+			sp.Exact = fw == 0 && strings.Count(rcs, base) == 1
+			sp.Seq = s
+			pc.Seqs = append(pc.Seqs, sp)
+			continue
+		}
 		if pc.Reverse && r.Chance(0.4) {
 			s, _ = ref.RevComp(s)
 			sp.RC = true
